@@ -134,9 +134,15 @@ def run_ops(op, ops):
             if o.get("untyped"):
                 # ad-hoc table whose columns carry no type (NullType): values go to the driver / the literal renderer as they are
                 t = sa.table(o["table"], *[sa.column(c["name"]) for c in o["cols"]])
+            elif o.get("keys"):
+                # a real Table (own MetaData) some of whose columns have a Python-side key different from the column name
+                # (explicit key=, or a declarative model's __table__); the rows are keyed by those keys
+                t = sa.Table(o["table"], sa.MetaData(),
+                             *[sa.Column(c["name"], type_py(c["type"]), key=o["keys"].get(c["name"], c["name"])) for c in o["cols"]])
             else:
                 t = sa.table(o["table"], *[sa.column(c["name"], type_py(c["type"])) for c in o["cols"]])
-            rows = [{n: val_py(v) for n, v in r.items()} for r in o["rows"]]
+            keys = o.get("keys") or {}
+            rows = [{keys.get(n, n): val_py(v) for n, v in r.items()} for r in o["rows"]]
             if o.get("malformed") == "tuple":
                 rows = tuple(rows)  # not a list: TypeError in both modes
             elif o.get("malformed") == "rowlist":
@@ -200,9 +206,13 @@ def render_py(ops):
         elif k == "bulk_insert":
             if o.get("untyped"):
                 t = "sa.table(%r, %s)" % (o["table"], ", ".join("sa.column(%r)" % c["name"] for c in o["cols"]))
+            elif o.get("keys"):
+                t = "sa.Table(%r, sa.MetaData(), %s)" % (o["table"], ", ".join(
+                    "sa.Column(%r, %s, key=%r)" % (c["name"], type_src(c["type"]), o["keys"].get(c["name"], c["name"])) for c in o["cols"]))
             else:
                 t = "sa.table(%r, %s)" % (o["table"], ", ".join("sa.column(%r, %s)" % (c["name"], type_src(c["type"])) for c in o["cols"]))
-            rows = "[%s]" % ", ".join("{%s}" % ", ".join("%r: %r" % (n, val_py(v)) for n, v in r.items()) for r in o["rows"])
+            keys = o.get("keys") or {}
+            rows = "[%s]" % ", ".join("{%s}" % ", ".join("%r: %r" % (keys.get(n, n), val_py(v)) for n, v in r.items()) for r in o["rows"])
             if o.get("malformed") == "tuple":
                 rows = "tuple(%s)" % rows
             elif o.get("malformed") == "rowlist":
